@@ -403,6 +403,23 @@ theorem stripUnk_keeps (t : Ty) (h : tyInvented t = false) : stripUnk t = t := b
   | seq t ih => simp only [tyInvented] at h; simp [stripUnk, ih h]
   | opt t ih => simp only [tyInvented] at h; simp [stripUnk, ih h]
 
+/-- the `TypeError` of `BaseVars.__post_init__` is raised exactly for ill-kinded argument lists, before
+    (and independently of) any inference -/
+theorem kind_error_iff (Infer : InferFn) (c : Call) :
+    construct Infer c = .error .kind ↔ kindsOk c.sig.inputs c.args = false := by
+  unfold construct
+  cases hk : kindsOk c.sig.inputs c.args with
+  | false => simp
+  | true =>
+    simp only [Bool.not_true, Bool.false_eq_true, if_false]
+    cases hu : anyUntyped c with
+    | true => simp
+    | false =>
+      simp only [Bool.false_eq_true, if_false]
+      cases Infer (Sing.singleton c) with
+      | none => simp
+      | some res => simp
+
 /-- **supplemented_rejects_more**: an operator whose override runs the standard routine first
     (Compress, Loop — checked on every run: the inference request is observed) rejects at least what
     the standard constructor rejects, whatever its own rules are. (The ml operators do *not* have this
